@@ -582,30 +582,50 @@ def run_check(mod, tier, verif_seed, jobs):
     replay_path = None
     vio_info = None
     if harness is None and viols:
-        first = viols[0]
-        case = make_case(mod, prop, first["scenario"], verif_seed, first["i"], tier)
-        sig = first["violation"]["sig"]
         ev_key = getattr(mod, "EVENTS_KEY", "events")
-        orig_len = len(case.get(ev_key, []))
-        try:
-            small = minimise(mod, case, sig, known_sigs, budget_s=45 if tier == "quick" else 240)
-        except Exception as e:  # noqa: BLE001
-            small = case
-            print(f"note: minimisation failed ({type(e).__name__}: {e}); reporting the unminimised case")
-        out = run_case(mod, small, known_sigs)
-        if not out["violation"] or out["violation"]["sig"] != sig:
-            small = case
+
+        def fresh(path, sig):
+            cp = subprocess.run([sys.executable, os.path.join(VERIF_DIR, "check.py"), prop, "--replay", path],
+                                capture_output=True, text=True, timeout=600)
+            return cp.returncode == 1 and f"sig={sig}" in cp.stdout, cp
+
+        # A reported violation must be a function of its case alone: it has to reproduce from its replay file in a FRESH
+        # interpreter.  A worker process executes many runs; if the code under test leaks state between instances (a mutable
+        # default argument, a class attribute, a module-level cache) a run can fail because of what an EARLIER run left behind.
+        # Such a run does not replay on its own - but a run whose own bystander fleet produces the leak does.  So the violating
+        # runs are tried in order until one replays (at most 6); only if none does is the outcome a harness error.
+        last = None
+        for cand in viols[:6]:
+            case = make_case(mod, prop, cand["scenario"], verif_seed, cand["i"], tier)
+            sig = cand["violation"]["sig"]
+            orig_len = len(case.get(ev_key, []))
+            raw_path = write_replay(prop, case, cand["violation"], verif_seed, orig_len)
+            ok, cp = fresh(raw_path, sig)
+            last = (sig, raw_path, cp)
+            if not ok:
+                continue
+            try:
+                small = minimise(mod, case, sig, known_sigs, budget_s=45 if tier == "quick" else 240)
+            except Exception as e:  # noqa: BLE001
+                small = case
+                print(f"note: minimisation failed ({type(e).__name__}: {e}); reporting the unminimised case")
             out = run_case(mod, small, known_sigs)
-        vio_info = out["violation"]
-        replay_path = write_replay(prop, small, vio_info, verif_seed, orig_len)
-        # must reproduce in a fresh interpreter
-        cp = subprocess.run(
-            [sys.executable, os.path.join(VERIF_DIR, "check.py"), prop, "--replay", replay_path],
-            capture_output=True, text=True, timeout=600,
-        )
-        if cp.returncode != 1 or f"sig={sig}" not in cp.stdout:
+            vio_info, replay_path = cand["violation"], raw_path
+            if small is not case and out["violation"] and out["violation"]["sig"] == sig:
+                small_path = write_replay(prop, small, out["violation"], verif_seed, orig_len)
+                ok2, _ = fresh(small_path, sig)
+                if ok2:
+                    vio_info, replay_path = out["violation"], small_path
+                    if small_path != raw_path:
+                        try:
+                            os.remove(raw_path)
+                        except OSError:
+                            pass
+            break
+        else:
+            sig, raw_path, cp = last
             harness = (
-                f"violation sig={sig} did not reproduce from {replay_path} in a fresh interpreter "
+                f"violation sig={sig} did not reproduce from {raw_path} in a fresh interpreter (nor did {min(len(viols), 6) - 1} other violating run(s)) "
                 f"(exit {cp.returncode}): {cp.stdout[-400:]} {cp.stderr[-400:]}"
             )
 
